@@ -254,6 +254,54 @@ def families(rng, n_random):
     return cases
 
 
+def sym_eigs(m):
+    """eigenvalues of the symmetric 3x3 matrix (a00 a11 a22 a01 a02 a12), trigonometric formula (support code: only
+    used to select well separated spectra for the `dense` family)"""
+    a00, a11, a22, a01, a02, a12 = m
+    p1 = a01 * a01 + a02 * a02 + a12 * a12
+    q_ = (a00 + a11 + a22) / 3
+    p2 = (a00 - q_) ** 2 + (a11 - q_) ** 2 + (a22 - q_) ** 2 + 2 * p1
+    if p2 == 0:
+        return [q_, q_, q_]
+    p = math.sqrt(p2 / 6)
+    b = [[(a00 - q_) / p, a01 / p, a02 / p], [a01 / p, (a11 - q_) / p, a12 / p], [a02 / p, a12 / p, (a22 - q_) / p]]
+    detb = (b[0][0] * (b[1][1] * b[2][2] - b[1][2] * b[2][1]) - b[0][1] * (b[1][0] * b[2][2] - b[1][2] * b[2][0])
+            + b[0][2] * (b[1][0] * b[2][1] - b[1][1] * b[2][0]))
+    r = max(-1., min(1., detb / 2))
+    phi = math.acos(r) / 3
+    e1 = q_ + 2 * p * math.cos(phi)
+    e3 = q_ + 2 * p * math.cos(phi + 2 * math.pi / 3)
+    return [e1, 3 * q_ - e1 - e3, e3]
+
+
+def dense_cases(rng, n):
+    """family `dense` (mutation audit 2026-09-22): fully populated, well conditioned symmetric tensors — every
+    off-diagonal entry of the dimension is >= 0.2 in magnitude, the eigenvalues are pairwise >= 0.3 apart, entries O(1).
+    No solver has a known finding on this family, so (a) the documented coarse tolerances apply with fresh keys
+    `residual:<solver>/N<d>:dense`, and (b) the accuracy every solver reaches on the clean tree (<= 3e-14, measured
+    over 40 seeds x 12 tensors) is checked with a 100x margin under the keys `accuracy:<solver>/N<d>:dense`."""
+    cases = []
+    for N in (2, 3):
+        k = 0
+        while k < n:
+            m = [rng.uniform(-2, 2) for _ in range(6)]
+            if N == 2:
+                m[4] = m[5] = 0.
+            off = [m[3]] if N == 2 else m[3:]
+            if min(abs(x) for x in off) < 0.2:
+                continue
+            ev = sorted(sym_eigs(m))
+            if min(ev[1] - ev[0], ev[2] - ev[1]) < 0.3:
+                continue
+            cases.append(("dense#x%d_%d" % (N, k), N, m))
+            k += 1
+    return cases
+
+
+# accuracy reached by every solver on the `dense` family (relative residuals): clean maximum 2.6e-14 => bound 3e-12
+ACCURACY_DENSE = 3e-12
+
+
 def residuals(ck, binary, cases):
     text = "".join("%s %d %s\n" % (cid, N, " ".join("%.17g" % x for x in m)) for cid, N, m in cases)
     p = ck.run([binary], input=text, timeout=900)
@@ -316,7 +364,7 @@ def run(ck):
                 continue
             fam = f[0].split(":")[-1]
             directed.append(("%s#d%d" % (fam, len(directed)), int(f[1]), [float(x) for x in f[2:8]]))
-    cases = directed + families(rng, 6 if ck.quick else 120)
+    cases = directed + families(rng, 6 if ck.quick else 120) + dense_cases(rng, 12 if ck.quick else 200)
     rows, err = residuals(ck, bins["c03resid"], cases)
     report = {}
     keys_fired = []
@@ -338,6 +386,8 @@ def run(ck):
                 key = "nonfinite:%s/N%d:%s" % (solver, N, fam)
             elif val >= TOL[solver]:
                 key = "residual:%s/N%d:%s" % (solver, N, fam)
+            elif fam == "dense" and val >= ACCURACY_DENSE:
+                key = "accuracy:%s/N%d:%s" % (solver, N, fam)
             else:
                 continue
             # keep the first witness (directed corpus first => deterministic replay)
@@ -346,7 +396,9 @@ def run(ck):
         for key, (val, cid, r, finite, solver) in sorted(worst.items()):
             N, m = byid[cid]
             what = ("non finite eigenvalues/eigenvectors" if key.startswith("nonfinite")
-                    else "residual %.3g >= tolerance %.0e" % (val, TOL[solver]))
+                    else ("residual %.3g >= %.0e, the accuracy bound of every solver on well conditioned dense tensors "
+                          "(clean tree: <= 3e-14)" % (val, ACCURACY_DENSE) if key.startswith("accuracy")
+                          else "residual %.3g >= tolerance %.0e" % (val, TOL[solver])))
             keys_fired.append(key)
             ck.violation(key,
                          "%s: %s for the finite symmetric tensor (a00 a11 a22 a01 a02 a12) = %s"
